@@ -23,6 +23,7 @@
 #include <string>
 #include <type_traits>
 #include <vector>
+#include <unistd.h>
 #ifndef SYMT_CONCRETE
 #include <z3++.h>
 #else
@@ -296,6 +297,7 @@ class Engine {
     auto r = check(neg, &m);
     if (r == z3::unsat) {
       stats().discharged++;
+      dump_for_second_solver(neg);
       return true;
     }
     if (r == z3::unknown) {
@@ -304,6 +306,23 @@ class Engine {
     }
     violation(key, "obligation", "negated claim satisfiable", &m);
     return false;
+  }
+  // thorough tier: a sample of discharged non-trivial obligations is written as SMT-LIB2 and re-decided by other solvers
+  unsigned dumped = 0;
+  void dump_for_second_solver(const z3::expr &neg) {
+    const char *dir = getenv("SYMT_DUMP_DIR");
+    if (!dir || dumped >= 2) return;
+    dumped++;
+    z3::solver s(ctx());
+    for (auto &c : pc) s.add(c);
+    s.add(neg);
+    char name[512];
+    snprintf(name, sizeof name, "%s/ob_%d_%u_%u.smt2", dir, (int)getpid(), neg.hash(), dumped);
+    FILE *f = fopen(name, "w");
+    if (!f) return;
+    std::string t = "(set-logic ALL)\n" + s.to_smt2();
+    fwrite(t.data(), 1, t.size(), f);
+    fclose(f);
   }
   // Negative control: pc /\ not claim must be SAT (the harness can tell a wrong answer from a right one).
   bool control(const std::string &key, const Bool &wrong_claim) {
